@@ -404,6 +404,11 @@ func (req *Request) write(w io.Writer, usingProxy bool, extraHeaders Header) err
 	if req.Method != "" && !validToken(req.Method) {
 		return &badStringError{"http: invalid method in outgoing request", req.Method}
 	}
+	for i := 0; i < len(ruri); i++ {
+		if ruri[i] <= ' ' || ruri[i] == 0x7f {
+			return &badStringError{"http: whitespace or control character in outgoing request-target", ruri}
+		}
+	}
 	// TODO(bradfitz): escape at least newlines in ruri?
 
 	// Wrap the writer in a bufio Writer if it's not already buffered.
